@@ -248,6 +248,7 @@ type kop struct {
 	row           mrow
 	pval          int64
 	faults        []faultSpec
+	scripted      bool // part of a script: no random fault is added
 }
 
 // a fault aimed at the occ-th request of one kind on one prefix (optionally one object)
@@ -1075,6 +1076,27 @@ func runL1History(g *gen, mode string, nops int, hstats map[string]int, faulty, 
 			&kop{kind: "delhist", h: hM, before: t(2)}, &kop{kind: "list"})
 		hstats["script_fork"]++
 	}
+	if faulty && mode != "rows" && len(script) == 0 && g.r.Intn(3) == 0 {
+		// history deletion interrupted at its first node DELETE, then retried: a handle commits three
+		// times (two superseded versions with nodes of their own), deletes all history — the first
+		// DELETE of a node object fails — and retries; afterwards no superseded version and none of
+		// its node objects is left (the retry in the loop below lists the bucket)
+		h := nextH
+		nextH++
+		script = append(script, &kop{kind: "open", h: h, when: baseTime - 4000000000, seed: g.r.Int63n(1000000), scripted: true})
+		for r := 0; r < 3; r++ {
+			for i, k := range keys {
+				if r == 0 || g.r.Intn(2) == 0 {
+					script = append(script, &kop{kind: "set", h: h, key: k, when: baseTime + int64(r*8+i%8)*10, pval: int64(g.r.Intn(50)), scripted: true})
+				}
+			}
+			script = append(script, &kop{kind: "set", h: h, key: keys[0], when: baseTime + int64(r*8+7)*10 + 5, pval: int64(100 + r), scripted: true},
+				&kop{kind: "commit", h: h, scripted: true})
+		}
+		script = append(script, &kop{kind: "delhist", h: h, before: baseTime + 9000000000, scripted: true,
+			faults: []faultSpec{{"D", "n", "*", 0, fErr, false}}})
+		hstats["script_node_delete_fault_retry"]++
+	}
 	for step := 0; step < nops+len(script); step++ {
 		choice := g.r.Intn(100)
 		if len(live) == 0 {
@@ -1210,7 +1232,9 @@ func runL1History(g *gen, mode string, nops int, hstats map[string]int, faulty, 
 			}
 		}
 		forceVanish := w.faulty && op.kind == "open" && len(op.only) == 0 && len(w.currentRootNodes()) >= 2 && g.r.Intn(2) == 0
-		if w.faulty && (g.r.Intn(3) == 0 || forceVanish) {
+		if op.scripted {
+			// (the script decides about faults on its operations)
+		} else if w.faulty && (g.r.Intn(3) == 0 || forceVanish) {
 			var menu []faultSpec
 			switch op.kind {
 			case "open":
@@ -1275,7 +1299,10 @@ func runL1History(g *gen, mode string, nops int, hstats map[string]int, faulty, 
 					// the first node DELETE fails, whichever node it is: nothing has been deleted yet and
 					// the version records that name the nodes are still there, so the retry below removes
 					// everything the cutoff covers (no orphaned node objects)
-					menu = append(menu, faultSpec{"D", "n", "*", 0, fErr, false}, faultSpec{"D", "n", "*", 0, fErr, false})
+					menu = append(menu, faultSpec{"D", "n", "*", 0, fErr, false})
+					if g.r.Intn(2) == 0 {
+						menu = []faultSpec{{"D", "n", "*", 0, fErr, false}}
+					}
 				}
 			}
 			if len(menu) > 0 {
